@@ -272,6 +272,10 @@ QVector<QXmppUploadService> QXmppUploadRequestManager::uploadServices() const
 
 bool QXmppUploadRequestManager::handleStanza(const QDomElement &element)
 {
+    // requests are not handled by this manager: leave them to the client's fallback (error reply)
+    if (const auto type = element.attribute(u"type"_s); type == u"get" || type == u"set") {
+        return false;
+    }
     if (QXmppHttpUploadSlotIq::isHttpUploadSlotIq(element)) {
         QXmppHttpUploadSlotIq slot;
         slot.parse(element);
